@@ -364,9 +364,34 @@ def run_check(prop: str, tier: str) -> int:
                     "violation": v, "digest": "", "events": []}, 0
             else:
                 small, small_res, runs = core.shrink(
-                    iso.execute, engine.reductions, doc, clause,
+                    iso.execute, core.seq_reductions(engine.reductions), doc,
+                    clause,
                     budget_runs=int(getattr(engine, "SHRINK_RUNS", 400)),
                     budget_s=float(getattr(engine, "SHRINK_S", 60.0)))
+                if not small_res.get("violation"):
+                    # Not there when the scenario runs alone: state may have
+                    # leaked from the scenarios the worker executed before
+                    # (a module-level cache, say). Any sequence of scenarios
+                    # in one process is a legal history, so that sequence is
+                    # executed in a fresh process and becomes the witness.
+                    hist = None
+                    for k2 in keys[:40]:
+                        if results[k2].get("history"):
+                            hist, doc = results[k2]["history"], \
+                                results[k2]["doc"]
+                            break
+                    if hist:
+                        seq_doc = {core.SEQ: list(hist) + [doc]}
+                        seq_res = iso.execute(seq_doc)
+                        if seq_res.get("violation") and \
+                                seq_res["violation"]["clause"] == clause:
+                            small, small_res, runs = core.shrink(
+                                iso.execute,
+                                core.seq_reductions(engine.reductions),
+                                seq_doc, clause, budget_runs=60,
+                                budget_s=float(getattr(
+                                    engine, "SHRINK_S", 60.0)))
+                            doc = seq_doc
                 if not small_res.get("violation"):
                     # not reproducible in a second process: harness problem
                     harness_errors.append(
